@@ -99,6 +99,10 @@ package customize
 //@   bind call Clientset.Resource: rrc, rrcErr
 //@   at matchesRelatedRule(pns, p, rel, rule, kind) [C14,C15]: p == cur(parent) && rule == cur(relatedRule) && rel == cur(related) && pns == cur(parentResource).Namespaced && kind == rrc.Kind
 //@   at Manager.getCustomizeHookResponse(m, p) [C15]: m == rm && p == cur(parent) && cached(p)
+//@   // the rules a related object is matched against are those of the parent's customize answer obtained through
+//@   // getCustomizeHookResponse (which asks the hook when nothing is cached): an uncached parent is not silently skipped
+//@   bind call Manager.getCustomizeHookResponse: chr, chrErr
+//@   at matchesRelatedRule(pns, p, rel, rule, kind) [C14,C15]: chrErr == nil && chr != nil
 //@   invariant loop 1 [C14,C13]: validRM(rm) && (forall j int :: 0 <= j && j < len(matchingParents) ==> matchingParents[j] != nil && cached(matchingParents[j]))
 //@   invariant loop 2 [C14,C13]: validRM(rm) && (forall j int :: 0 <= j && j < len(matchingParents) ==> matchingParents[j] != nil && cached(matchingParents[j]))
 //@   invariant loop 3 [C14,C13]: validRM(rm) && (forall j int :: 0 <= j && j < len(matchingParents) ==> matchingParents[j] != nil && cached(matchingParents[j]))
